@@ -68,8 +68,12 @@ void GammaDiscreteDistribution::fireParameterChanged(const ParameterList& parame
   AbstractDiscreteDistribution::fireParameterChanged(parameters);
   alpha_ = getParameterValue("alpha");
   beta_ = getParameterValue("beta");
-  if (hasParameter("offset"))
+  if (hasParameter("offset") && offset_ != getParameterValue("offset"))
+  {
     offset_ = getParameterValue("offset");
+    // the support starts at the offset (as in the constructor)
+    intMinMax_->setLowerBound(offset_, true);
+  }
   ga1_ = exp(RandomTools::lnGamma(alpha_ + 1) - RandomTools::lnGamma(alpha_));
 
   discretize();
